@@ -26,8 +26,11 @@ def _cancel_loop_hook(ex: paths.Explorer, n, st):
             calls.append(c)
     if len(calls) != 1:
         return None
+    guard_continues = {id(s_.body[0]) for s_ in n.body if isinstance(s_, ast.If) and len(s_.body) == 1 and isinstance(s_.body[0], ast.Continue)}
     for x in ast.walk(n):
-        if isinstance(x, (ast.Yield, ast.YieldFrom, ast.Break, ast.Continue, ast.Return)):
+        if isinstance(x, (ast.Yield, ast.YieldFrom, ast.Break, ast.Return)):
+            return None
+        if isinstance(x, ast.Continue) and id(x) not in guard_continues:
             return None
         if isinstance(x, ast.Call) and x is not calls[0] and isinstance(x.func, ast.Attribute) and x.func.attr in PROTO:
             return None
@@ -39,12 +42,16 @@ def _cancel_loop_hook(ex: paths.Explorer, n, st):
         for s_ in stmts:
             if any(x is call for x in ast.walk(s_)):
                 if isinstance(s_, ast.If):
+                    if any(x is call for x in ast.walk(s_.test)):
+                        return acc              # `if not <cancel>(t): raise ...`: the call runs whenever the test is reached
                     if any(x is call for b in s_.body for x in ast.walk(b)):
                         return find(s_.body, acc + [(s_.test, True)])
                     return find(s_.orelse, acc + [(s_.test, False)])
                 if isinstance(s_, (ast.Expr, ast.Assign, ast.AugAssign, ast.AnnAssign)):
                     return acc
                 return None
+            if isinstance(s_, ast.If) and not s_.orelse and len(s_.body) == 1 and isinstance(s_.body[0], ast.Continue):
+                acc = acc + [(s_.test, False)]      # `if <test>: continue` guards everything after it
         return None
     guards = find(n.body, [])
     kind = 'other'
@@ -98,11 +105,69 @@ def _first_available_hook(ex: paths.Explorer, n, st):
     return [(found, 'normal'), (none, 'normal')]
 
 
+def _first_available_else_hook(ex: paths.Explorer, n, st):
+    """`for e in EDGES: if e.can_put(): break` [else: <nobody has room>]  ->  the same event; on 'found' the loop variable is the edge,
+    on 'none' the else-block runs"""
+    if not (isinstance(n, ast.For) and isinstance(n.target, ast.Name) and len(n.body) == 1):
+        return None
+    b = n.body[0]
+    if not (isinstance(b, ast.If) and not b.orelse and isinstance(b.test, ast.Call) and isinstance(b.test.func, ast.Attribute)
+            and b.test.func.attr in ('can_put', 'can_get') and isinstance(b.test.func.value, ast.Name)
+            and b.test.func.value.id == n.target.id and not b.test.args and len(b.body) == 1 and isinstance(b.body[0], ast.Break)):
+        return None
+    x = n.target.id
+    itertxt = ast.unparse(n.iter)
+    found = st
+    none = st.clone()
+    val = ('first-avail', itertxt, b.test.func.attr, next(paths._uid))
+    prior = st.env.get(x)
+    loopvar_else = bool(n.orelse) and isinstance(n.orelse[-1], (ast.Return, ast.Raise, ast.Continue))
+    ex.emit(found, 'first_available', n, iter=itertxt, probe=b.test.func.attr, outcome='found', var=x, value=val, node=n, prior=prior, loopvar_else=loopvar_else)
+    found.env[x] = val
+    found.notnone.add(x)
+    ex.emit(none, 'first_available', n, iter=itertxt, probe=b.test.func.attr, outcome='none', var=x, value=None, node=n, prior=prior, loopvar_else=loopvar_else)
+    none.env[x] = paths.fresh('last-edge')
+    out = [(found, 'normal')]
+    out += ex.block(n.orelse, none) if n.orelse else [(none, 'normal')]
+    return out
+
+
+def _first_triggered_index_hook(ex: paths.Explorer, n, st):
+    """`for i, t in enumerate(L): if t.triggered: X = i; break`  ->  the look-up `next((t for t in L if t.triggered), None)` with X bound to
+    the index of the token found (so that L[X] is that token and EDGES[X] the edge it belongs to)"""
+    if not (isinstance(n, ast.For) and isinstance(n.target, ast.Tuple) and len(n.target.elts) == 2 and all(isinstance(e, ast.Name) for e in n.target.elts)
+            and isinstance(n.iter, ast.Call) and isinstance(n.iter.func, ast.Name) and n.iter.func.id == 'enumerate' and len(n.iter.args) == 1
+            and len(n.body) == 1 and not n.orelse):
+        return None
+    iv, tv = n.target.elts[0].id, n.target.elts[1].id
+    b = n.body[0]
+    if not (isinstance(b, ast.If) and not b.orelse and isinstance(b.test, ast.Attribute) and isinstance(b.test.value, ast.Name) and b.test.value.id == tv
+            and len(b.body) == 2 and isinstance(b.body[1], ast.Break) and isinstance(b.body[0], ast.Assign) and len(b.body[0].targets) == 1
+            and isinstance(b.body[0].targets[0], ast.Name) and isinstance(b.body[0].value, ast.Name) and b.body[0].value.id == iv):
+        return None
+    src_node = n.iter.args[0]
+    src = ast.unparse(src_node)
+    x = b.body[0].targets[0].id
+    pred = f'{tv}.{b.test.attr}'
+    src_val = ex.pure_value(src_node, st)
+    found_v = ('found', src, next(paths._uid), None)
+    a = st
+    c = st.clone()
+    ex.emit(a, 'lookup', n, src=src, srclist=None, pred=pred, outcome='found', value=found_v, eq=[], pred_nodes=[b.test], var=tv, src_val=src_val, node=n)
+    a.env[x] = ('lindex', src, found_v)
+    a.env[tv] = found_v
+    a.env[iv] = ('lindex', src, found_v)
+    a.notnone.add(x)
+    ex.emit(c, 'lookup', n, src=src, srclist=None, pred=pred, outcome='none', value=paths.NONE, eq=[], pred_nodes=[b.test], var=tv, src_val=src_val, node=n)
+    return [(a, 'normal'), (c, 'normal')]
+
+
 def _hooks(ex, n, st):
-    r = _cancel_loop_hook(ex, n, st)
-    if r is not None:
-        return r
-    return _first_available_hook(ex, n, st)
+    for h in (_cancel_loop_hook, _first_available_hook, _first_available_else_hook, _first_triggered_index_hook):
+        r = h(ex, n, st)
+        if r is not None:
+            return r
+    return None
 
 
 def _relevant(n) -> bool:
